@@ -786,6 +786,48 @@ impl Analyzable for crate::ast::FnCall {
             args_report = args_report + arg.analyze(parent.clone());
         }
 
+        // the callee must be something that can be called, with the number of arguments it takes
+        let expected_args = match &self.callee.symbol {
+            // an asset constructor reads its first argument (the amount)
+            Some(Symbol::AssetDef(_)) => {
+                if self.args.is_empty() {
+                    args_report.errors.push(Error::invalid_expression(
+                        format!("asset '{}' needs an amount", self.callee.value),
+                        &self.span,
+                    ));
+                }
+
+                None
+            }
+            Some(Symbol::Function(name)) => match name.as_str() {
+                "tip_slot" => Some(0),
+                _ => Some(1),
+            },
+            Some(other) => {
+                args_report.errors.push(Error::invalid_symbol(
+                    "function or asset",
+                    other,
+                    &self.callee,
+                ));
+                None
+            }
+            None => None,
+        };
+
+        if let Some(expected) = expected_args {
+            if self.args.len() != expected {
+                args_report.errors.push(Error::invalid_expression(
+                    format!(
+                        "'{}' takes {} argument(s), {} given",
+                        self.callee.value,
+                        expected,
+                        self.args.len()
+                    ),
+                    &self.span,
+                ));
+            }
+        }
+
         callee + args_report
     }
 
